@@ -15,7 +15,7 @@ PROPERTY_ID = "C11"
 LEVEL = "exploration"
 RULE = (
     "Hypothesis draws the solver (2-D, 3-D), every extent independently in 2..24 (quick) / 2..64 (thorough; 3-D volume <= "
-    "32768 cells), dx over 4 decades, precision, and a right-hand side (all field kinds incl. constants = pure null space, "
+    "32768 cells) or, in a third of the cases, an elongated grid (one axis 33..160 in 2-D / 33..96 in 3-D, the others 2..6), dx over 4 decades, precision, and a right-hand side (all field kinds incl. constants = pure null space, "
     "and zero-mean variants); the real solver is constructed and solve()/vector_field_solve() called. Oracle: an independent "
     "operator L u = sum_axes (2u - u+ - u-)/dx^2 with edge replication (homogeneous Neumann at the faces): solution dtype is "
     "the real working precision, no ComplexWarning-free requirement is imposed; |mean(u)| <= 200 n eps max|u|; "
@@ -36,7 +36,11 @@ def _strategy(tier, var):
     def case(draw):
         dim = 2 if var == "2d" else 3
         hi = (64 if dim == 2 else 32) if tier == "thorough" else (24 if dim == 2 else 10)
-        shape = draw(gen.grid_shape(dim, 2, hi, max_cells=32768))
+        # elongated grids: one long axis (the conditioning of the 1-D eigen-problems depends on the extent, not the volume)
+        long_hi = (256 if dim == 2 else 128) if tier == "thorough" else (160 if dim == 2 else 96)
+        elong = st.tuples(st.integers(0, dim - 1), st.integers(33, long_hi), st.lists(st.integers(2, 6), min_size=dim, max_size=dim)).map(
+            lambda t: [t[1] if i == t[0] else t[2][i] for i in range(dim)])
+        shape = draw(st.one_of(gen.grid_shape(dim, 2, hi, max_cells=32768), gen.grid_shape(dim, 2, hi, max_cells=32768), elong))
         return {"solver": var, "shape": shape, "dx": draw(gen.nice_or_log(1e-2, 1e2)), "dtype": draw(gen.precisions),
                 "rhs": draw(gen.vector_field_spec(3, max_mag_exp=8)), "zero_mean": draw(st.booleans())}
 
@@ -116,10 +120,10 @@ def _body(case, ctx):
                             f"(shape {list(shape)}, dx {float(dx):.4g}, {case['dtype']})")
     kinds = {s["kind"] for s in case["rhs"][: 3 if var == "3d_vector" else 1]}
     ctx.note(nontrivial=len(set(shape)) > 1 and not kinds <= {"constant", "zero"},
-             labels=[var, case["dtype"], "noncubic" if len(set(shape)) > 1 else "cubic"] + sorted("rhs_" + k for k in kinds))
+             labels=[var, case["dtype"], "noncubic" if len(set(shape)) > 1 else "cubic"] + (["long_axis_ge_48"] if n >= 48 else []) + sorted("rhs_" + k for k in kinds))
 
 
 PARTS = [
     Part(name="neumann_residual", strategy=_strategy, body=_body, variants=_variants,
-         examples={"quick": 450, "thorough": 9000}, shards={"quick": 3, "thorough": 3}),
+         examples={"quick": 1500, "thorough": 18000}, shards={"quick": 6, "thorough": 12}),
 ]
